@@ -31,7 +31,8 @@ CHECKS["C16"] = dict(
          "reference of every member cell keeps designating the object its author meant, and that "
          "top-level, dependency and tag queries equal their graph-theoretic definitions; every "
          "transition of that state graph (bounded history length) is replayed through the public "
-         "API and the projected graph plus all query results after each call are validated by TLC.",
+         "API and the projected graph plus all query results after each call are validated by TLC. "
+             "Histories include removing a cell that members still reference by pointer and replace_cell of a cell that is no longer in the library (references are updated, nothing is inserted); cell names differ in length and share prefixes.",
     note="Trusted: TLC, the harness projection (pointer identity mapped to object ids). Domain: "
          "unique member names, replaced objects are not brought back, raw cells needed by other "
          "raw cells are not replaced. Two initial library shapes (shared sub-cell, by-name refs to cells, raw cells and absent cells, two raw-cell files; and more raw cells than cells); tag t1 is the all-zero tag and tag maps are grown past their first capacity.",
@@ -48,7 +49,8 @@ CHECKS["C11"] = dict(
          "that the structural transform maps every vector linearly; each case is executed on the "
          "real code (count, offsets, extrema, copy, transform, apply on polygon / 2-element "
          "FlexPath / RobustPath / label / reference with properties) and the logged results are "
-         "validated against the same operators.",
+         "validated against the same operators. "
+             "Also in scope: transforms applied through the element's own interface (Polygon::scale with two factors, mirror, rotate, transform on every element kind), which must map the carried repetition's vectors by the linear part, and the append contract of get_offsets / get_extrema (earlier content of the caller's array is kept).",
     note="Trusted: TLC, the harness's 'otherwise identical' comparison of copies (outline after "
          "de-duplicating doubled vertices, tags, properties). A count of 0 columns/rows is read as "
          "the empty lattice (no zero vector demanded). Exactness: integer lattice, Q = 10.",
@@ -95,7 +97,8 @@ CHECKS["C01"] = dict(
          "the C++ API and runs save/load three times; TLC checks each reloaded projection and the "
          "strictly decoded file against Norm(description) (rounding to the grid, repetitions "
          "expanded, arrays as placement sets, simple paths by centre line/width/end/extension, "
-         "GDSII properties as maps, units and timestamps).",
+         "GDSII properties as maps, units and timestamps). "
+             "Also: eighth-dbu libraries whose vertices AND repetition offsets are off the grid (copies must be round(vertex + offset)), and GDSII properties stored without a terminating NUL through the generic property interface.",
     note="Trusted: TLC, harness builder/projection. Polygons longer than the vertex "
          "limit and non-simple Flex/RobustPaths go through write_gds / read_gds and are compared as "
          "regions on exact sample points (Region.tla). Not covered: strings near 64 kB.",
@@ -109,7 +112,8 @@ CHECKS["C17"] = dict(
          "with tag filters and target units, and read_rawcells -> write_gds -> read_gds; TLC decodes "
          "the same bytes strictly and checks every result against the corresponding view of the "
          "decoded stream (counts, tag sets, units, filtered / rescaled / raw-copied layouts, "
-         "byte-exact restamping).",
+         "byte-exact restamping). "
+             "Also: a copy made from raw cells (library record already carrying the requested stamp, cells carrying another) is restamped and compared byte for byte, and files holding one record longer than 32 KiB (polygons of up to 8189 vertices) go through every summary reader.",
     note="Trusted: TLC, Gdsii.tla decoder, harness projection. Files: C03's encoder cases and "
          "C01's API-built libraries.",
     design="4 C17")
@@ -141,7 +145,8 @@ CHECKS["C14"] = dict(
          "each list at every point of the half-grid one cell beyond it (121 points), signed_area, "
          "area, perimeter with and without repetition, and the group queries inside / all_inside / "
          "any_inside / contain_all / contain_any on palette groups and point lists including empty "
-         "ones; every result is compared by TLC with the exact integer semantics.",
+         "ones; every result is compared by TLC with the exact integer semantics. "
+             "Five polygons with long slanted edges (coordinates up to 31 units) are queried on every half-unit point of a 67 x 67 window, so that points exactly on a slanted edge far from its ends are decided; inside() is called twice with differently preset result buffers.",
     note="Trusted: TLC, Base.tla arithmetic. Coordinates are half-integers (exact doubles); "
          "bounded-exhaustive, not all polygons.",
     design="4 C14")
@@ -156,7 +161,8 @@ CHECKS["C05"] = dict(
          "set operation of the memberships in the operands (skipping only points within 1.5 grid "
          "units of a non-Manhattan operand edge), that at most one output polygon covers a point "
          "with winding +-1 (holes are zero-width slits), and the area identities (exact for "
-         "Manhattan operands, within perimeter x grid otherwise).",
+         "Manhattan operands, within perimeter x grid otherwise). "
+             "The same operations are repeated on a grid of 1e-9 (scaled coordinates beyond 32 bits): area identities hold there and each fine-grid area equals the coarse-grid one up to the coarse rounding allowance.",
     note="Trusted: TLC, Base/Region arithmetic. Clipper itself is vendored; the binding is on "
          "clipper_tools.cpp. Operands from a palette on a 12x12 grid, not arbitrary polygons.",
     design="4 C05")
@@ -171,7 +177,8 @@ CHECKS["C12"] = dict(
          "points (guard band only along non-Manhattan edges), that tag, repetition and properties "
          "are copied to every piece, that a limit below 5 leaves the polygon alone, and that each "
          "slice bin holds exactly the part of the polygon between its two cuts (cuts inside, on "
-         "and outside the bounding box, repeated and empty lists, both axes); hangs are events.",
+         "and outside the bounding box, repeated and empty lists, both axes); hangs are events. "
+             "fracture and slice are repeated on a grid of 1e-9 (the precision write_gds passes): the pieces add up to the coarse-grid area and respect the limit; the palette includes corners with mirrored slopes.",
     note="Trusted: TLC, Region.tla. 10 polygon families up to 26 vertices; the GDSII writer's use "
          "of the vertex limit is not yet re-checked through files.",
     design="4 C12")
@@ -185,7 +192,8 @@ CHECKS["C13"] = dict(
          "proves the two descriptions cover the same points). TLC then checks that every sample "
          "surely closer than d is covered and none surely beyond the join's reach is (d>0), and "
          "symmetrically for erosion, with a guard of 1.5 grid units plus the round-join arc "
-         "tolerance.",
+         "tolerance. "
+             "A deep erosion (|d| = 5) of a fat L-shape puts sample points between the round join's arc and its chord at the reflex corner.",
     note="Trusted: TLC, Region.tla, my reach factors (round 1, bevel sqrt 2, miter = limit). One "
          "known finding (overlapping inputs, d<0, no union; vendored ClipperOffset).",
     design="4 C13")
@@ -254,7 +262,8 @@ CHECKS["C15"] = dict(
          "forward order (1e-6 of the feature), start and end where requested, and that the polyline "
          "stays within 1.5 tolerances of the exact curve for arcs and non-doubling-back polynomial "
          "sections, ellipses, rings, slices, racetracks and fillets; TLC decides over the quantised "
-         "observations.",
+         "observations. "
+             "Elliptical arcs and ellipse slices with angles below -180 degrees at one or both ends are included.",
     note="Trusted: TLC, Paths.tla, the harness's distance measuring (sampling + ternary search, "
          "~120 lines). Hobby interpolation only as 'passes through the points'; command strings "
          "are issued through Curve::commands one instruction at a time and as one array; fillets held "
@@ -280,7 +289,8 @@ CHECKS["C07"] = dict(
          "three corners (90 and 45 degrees, short shared legs, legs too short) x widths x offsets x "
          "radii, the outline must be the swept region (3-tolerance band, as C08) of the line-and-arc "
          "centre curve for SOME admissible set of bent corners: tangent lengths fit into every leg "
-         "and no further corner could be bent as well.",
+         "and no further corner could be bent as well. "
+             "Bend cases include diagonal legs mirrored about an axis-parallel line, and the centre line written to PATH records (element_center of the same path flagged simple) must follow the centre curve of an admissible set of bends.",
     note="Trusted: TLC, Paths.tla, the harness's floating-point winding-number test of samples "
          "against gdstk's outline and, for bends, its construction of the exact centre curve. Curved "
          "spines (arc / bezier sections) are not in the region check; bends only on one element; "
@@ -302,7 +312,8 @@ CHECKS["C08"] = dict(
          "after rotate / translate / scale / mirror, hangs are events, and every sample point "
          "surely within (beyond) half the width of the exact centre curve by more than 3 tolerances "
          "is (is not) covered by the outline. The transform algebra (trafo, width_scale, "
-         "offset_scale) is checked under C10; PATH-record equivalence of simple paths under C01.",
+         "offset_scale) is checked under C10; PATH-record equivalence of simple paths under C01. "
+             "Region cases include single sections whose offset runs linearly (slanted or bent centre curve), where caps and ends must follow the centre curve's tangent.",
     note="Trusted: TLC, Paths.tla, the harness's centre-curve sampling and point-in-outline test. "
          "User-function interpolations and end caps other than flush/round are not in the clearance "
          "check; warning codes (IntersectionNotFound) are accepted.",
@@ -325,7 +336,8 @@ CHECKS["C04"] = dict(
          "TLC-enumerated libraries x writer options are saved by write_oas; the strict decoder "
          "(incl. its own inflate) must accept the bytes, the layout must be the saved library on "
          "the grid, and the END record, table offsets and strict flags, CRC-32 / checksum signature "
-         "and the S_* standard properties must be true of the file.",
+         "and the S_* standard properties must be true of the file. "
+             "The gdstk-written libraries include near misses of all 26 compact trapezoid shapes and references rotated by negative and multiple whole turns.",
     note="Trusted: TLC, Oasis.tla as my reading of SEMI P39 (no copy of the standard in the sandbox: "
          "CTRAPEZOID figures and TRAPEZOID deltas from memory), harness projection in 1/1000 grid "
          "unit, zlib for nothing (the specification inflates itself). Not generated: modal reuse of a dimension after a CTRAPEZOID type that does not use it, integers "
@@ -348,7 +360,8 @@ CHECKS["C02"] = dict(
          "every case is saved and reloaded; the reload must equal the library with every coordinate "
          "rounded to the grid (polygons as rings, repetitions as offset bags, properties exactly, "
          "detected circles [M] inside a tolerance annulus), later save/load cycles must reproduce "
-         "the first reload, the grid must not drift and a requested signature must validate.",
+         "the first reload, the grid must not drift and a requested signature must validate. "
+             "The libraries include near misses of all 26 compact trapezoid shapes (one vertex moved) and references rotated by negative and multiple whole turns; a reloaded polygon may differ from the saved one only if the saved one is itself a circle within the tolerances.",
     note="Trusted: TLC, harness projection. Standard properties are excluded from the cycle "
          "comparison (they are recomputed per save; their truth is C04's clause). Simple RobustPaths made of straight sections are included; paths with offsets or round ends are outside the property's quantifier and not generated. "
          "thorough sweeps the full 256 x 10 x 2 option product; quick samples all 256 flag sets once.",
